@@ -1,6 +1,7 @@
 """C19 - edits compose predictably: repeatable, reversible, order-independent."""
 
 import random
+import re
 
 from nmverif.checks import _editbase as B
 from nmverif.engines import edit as E
@@ -60,6 +61,15 @@ def tree_of(text):
         return None
     return (_sorted_plain(A.to_plain(A.merge(dv.target.bindings))),
             tuple(_sorted_plain(A.to_plain(A.merge(l))) for l in dv.layers))
+
+
+ODD_NAMES = ["na\u00efve", "gr\u00f6\u00dfe", "\u00e9", "a\u0301", "x'", "_", "a-b", "a--", "or", "\u03bb", "n\u00ba1"]
+
+
+def value_comment(val: str) -> str:
+    if val.lstrip().startswith(("#", "/*")):
+        return "leading"
+    return "trailing" if ("# vc" in val or "/* vc" in val) else "none"
 
 
 def set_view_at(sv, path):
@@ -151,6 +161,8 @@ def run_shard(spec):
         base_case = {"text": text, "prefix": prefix, "initial": text0}
         pool = E.VALUE_POOL + E.MULTILINE_VALUES
         val = rng.choice(pool)
+        if rng.random() < 0.08:
+            val = rng.choice(E.COMMENTED_VALUES)
         val2 = rng.choice([v for v in pool if v != val])
         try:
             # ---- idempotence
@@ -158,9 +170,16 @@ def run_shard(spec):
             p = rng.choice(cands)
             scoped = rng.random() < 0.2
             sp = ("@" if scoped else "") + (E.spell(p) if not scoped else "s_idem" + str(rng.randrange(9)))
+            if rng.random() < 0.06:
+                # names at the edge of what a bare segment may be (refused or not: twice like once)
+                sp = ("@" if scoped else "") + rng.choice(ODD_NAMES)
             rp = rng.random() < 0.5   # same object, or a fresh parse between the two applications
             once, r1 = run_seq(text, [E.Op("set", sp, val)])
             twice, r2 = run_seq(text, [E.Op("set", sp, val), E.Op("set", sp, val)], reparse=rp)
+            if once is not None and twice is None and not rp:
+                witness("idempotence", {"effect": "second-application-refused", "wrappers": wl,
+                                        "scoped": str(scoped), "fresh": str(p not in leaves), "exc": r2.exc_type},
+                        {**base_case, "ops": [["set", sp, val]] * 2}, f"{r2.exc_type}: {r2.exc_msg}")
             if once is not None and twice is None and rp:
                 witness("idempotence", {"effect": "second-application-refused-after-reparse", "wrappers": wl,
                                         "scoped": str(scoped), "fresh": str(p not in leaves), "exc": r2.exc_type},
@@ -173,7 +192,8 @@ def run_shard(spec):
                 nontriv.add(B.h64(text + "\0idem\0" + sp + val))
                 if once != twice:
                     witness("idempotence", {"effect": "second-application-changed-text", "wrappers": wl,
-                                            "scoped": str(scoped), "fresh": str(p not in leaves)},
+                                            "scoped": str(scoped), "fresh": str(p not in leaves),
+                                            "reparse": str(rp), "value_comment": value_comment(val)},
                             {**base_case, "ops": [["set", sp, val]] * 2}, f"ONCE={once!r} TWICE={twice!r}")
             # ---- restore (canonical, prefix-free)
             if not prefix:
@@ -287,8 +307,51 @@ def run_shard(spec):
             B.bump(obs, "instances_aborted_by_parse_error")
         if len(res["samples"]) < 2 and di % 97 == 3:
             res["samples"].append({"text": text[:300], "prefix": prefix})
+    # ---- idempotence through references: the written binding is not the one at the path; values
+    # that carry comments of their own (leading / trailing) must not pile up on repetition
+    for ri in range(max(20, spec["docs"] // 8)):
+        tpl_name, text, path = rng.choice(REFERENCE_DOCS)
+        kv = rng.random()
+        val = rng.choice(E.VALUE_POOL if kv < 0.4 else (E.MULTILINE_VALUES if kv < 0.5 else E.COMMENTED_VALUES))
+        wal(f"reference {spec['seed']}:{ri}")
+        n_rep = rng.choice([2, 3])
+        rp = rng.random() < 0.5
+        once, r1 = run_seq(text, [E.Op("set", path, val)])
+        many, r2 = run_seq(text, [E.Op("set", path, val)] * n_rep, reparse=rp)
+        res["evaluations"] += 1
+        case = {"text": text, "prefix": [], "initial": text, "ops": [["set", path, val]] * n_rep, "reparse": rp}
+        key = {"wrappers": tpl_name, "through_reference": "yes", "reparse": str(rp),
+               "value_is_name": "yes" if (re.fullmatch(r"[A-Za-z_][A-Za-z0-9_'-]*", val)
+                                          and val not in ("true", "false", "null")) else "no",
+               "value_comment": value_comment(val)}
+        if once is None:
+            obs["refused_instances"] += 1
+            continue
+        B.bump(obs["laws"], "idempotence-through-reference")
+        nontriv.add(B.h64(text + "\0ref\0" + path + val + str(rp)))
+        if many is None:
+            witness("idempotence", {**key, "effect": "second-application-refused", "exc": r2.exc_type}, case,
+                    f"{r2.exc_type}: {r2.exc_msg}")
+        elif many != once:
+            witness("idempotence", {**key, "effect": "second-application-changed-text"}, case,
+                    f"ONCE={once!r} MANY={many!r}")
     res["nontrivial"] = sorted(nontriv)
     return res
+
+
+# (label, document, path whose value is a reference): scope chain, fallback through a call / a
+# function head, sibling in a plain and in a rec set, chain of two references
+REFERENCE_DOCS = [
+    ("let", "let\n  v = \"1\";\nin\n{\n  version = v;\n}\n", "version"),
+    ("let+call", "let\n  v = \"1\";\nin\nf {\n  version = v;\n}\n", "version"),
+    ("let+lambda", "let\n  v = 1;\nin\n{ pkgs }:\n{\n  x = v;\n}\n", "x"),
+    ("lambda+let", "{ pkgs }:\nlet\n  v = 1; # note\nin\n{\n  x = v;\n}\n", "x"),
+    ("sibling", "{\n  a = b;\n  b = 1;\n}\n", "a"),
+    ("rec-sibling", "rec {\n  a = b;\n  b = /* pin */ 1;\n}\n", "a"),
+    ("chain", "let\n  v = w;\n  w = 1;\nin\n{\n  x = v;\n}\n", "x"),
+    ("nested", "let\n  v = 1;\nin\n{\n  m = {\n    x = v;\n  };\n}\n", "m.x"),
+    ("dotted", "let\n  v = 1;\nin\n{\n  m.x = v;\n  m.y = 2;\n}\n", "m.x"),
+]
 
 
 def replay(case):
